@@ -22,8 +22,14 @@ ROOT = os.path.dirname(os.path.dirname(os.path.abspath(__file__)))
 COQ = os.path.join(ROOT, "coq")
 CACHE = os.path.join(ROOT, ".cache")
 TARGET = os.path.join(CACHE, "target")
-REPO = "/repo"
+REPO = os.environ.get("VERIF_REPO", "/repo")
+# VERIF_REPO / VERIF_TAG are used by tools/mutant_eval.py only: they point a check at a scratch
+# worktree of /repo (with a seeded change applied) and give it private work / evidence / replay /
+# cargo target directories, so that several seeded changes can be evaluated in parallel while
+# /repo itself stays clean.  The registered commands never set them.
+TAG = os.environ.get("VERIF_TAG", "")
 HOOK_CFG = "oxidd_verif"
+OUT = ROOT if not TAG else os.path.join(CACHE, "alt", TAG)
 
 FORBIDDEN = re.compile(
     r"\b(Admitted|admit|Axiom|Axioms|Parameter|Parameters|Conjecture|Conjectures|Admit Obligations)\b"
@@ -90,10 +96,10 @@ class Ctx:
         self.axioms_seen = []
         self.samples = []
         self.stats = {}
-        self.workdir = os.path.join(CACHE, "work", pid)
+        self.workdir = os.path.join(CACHE, "work" + ("-" + TAG if TAG else ""), pid)
         os.makedirs(self.workdir, exist_ok=True)
-        os.makedirs(os.path.join(ROOT, "replays"), exist_ok=True)
-        os.makedirs(os.path.join(ROOT, "evidence"), exist_ok=True)
+        os.makedirs(os.path.join(OUT, "replays"), exist_ok=True)
+        os.makedirs(os.path.join(OUT, "evidence"), exist_ok=True)
         self.known_findings = load_known_findings(pid)
         self.replay_n = 0
 
@@ -329,6 +335,15 @@ def ocaml_build(ctx, extract_v, main_ml, extra_ml=(), model_vos=()):
 def cargo_build(bins, profile="release", features=None, no_default=False, hooks=False, target_sub=None,
                 timeout=3000):
     h = os.path.join(ROOT, "harness")
+    if TAG:
+        # private copy of the harness crate whose path dependencies point at VERIF_REPO
+        h2 = os.path.join(OUT, "harness")
+        shutil.rmtree(h2, ignore_errors=True)
+        shutil.copytree(h, h2, ignore=shutil.ignore_patterns("target", "Cargo.lock"))
+        t = open(os.path.join(h2, "Cargo.toml")).read().replace('"/repo/', '"' + REPO.rstrip("/") + "/")
+        open(os.path.join(h2, "Cargo.toml"), "w").write(t)
+        h = h2
+        target_sub = (target_sub + "-" if target_sub else "") + "alt-" + TAG
     lock = os.path.join(h, "Cargo.lock")
     if not os.path.exists(lock) or os.path.getmtime(lock) < os.path.getmtime(os.path.join(REPO, "Cargo.lock")):
         shutil.copy(os.path.join(REPO, "Cargo.lock"), lock)
@@ -561,7 +576,7 @@ def report_violation(ctx, signature, replay_obj, nfif=False):
                 print(f"KNOWN-FINDING: property={ctx.pid} {what}", flush=True)
             return False
     ctx.replay_n += 1
-    path = os.path.join(ROOT, "replays", f"{ctx.pid}-{ctx.seed}-{ctx.replay_n}.json")
+    path = os.path.join(OUT, "replays", f"{ctx.pid}-{ctx.seed}-{ctx.replay_n}.json")
     replay_obj = dict(replay_obj)
     replay_obj.setdefault("property", ctx.pid)
     replay_obj.setdefault("seed", ctx.seed)
@@ -603,7 +618,7 @@ def write_evidence(ctx, level, rule, checker_cmd, extra_cov=None, assumptions=()
         "wall_s": ctx.wall(),
         "violations": len(ctx.violations),
     }
-    p = os.path.join(ROOT, "evidence", f"{ctx.pid}.json")
+    p = os.path.join(OUT, "evidence", f"{ctx.pid}.json")
     json.dump(ev, open(p, "w"), indent=1)
     return p
 
@@ -612,6 +627,11 @@ def proof_gate(ctx, allowed_axioms=()):
     """Step 1 of every check.  A proof obligation that no longer checks is reported as a
     violation with no failing input (the static part can not produce one)."""
     ctx.proof_failure = None
+    if TAG:
+        # parallel evaluation of a seeded change (tools/mutant_eval.py): the Rocq development does not
+        # depend on /repo, its gate is exercised by the untagged runs; do not rebuild .vo files concurrently
+        log("proof gate skipped (VERIF_TAG set: seeded-change evaluation)")
+        return True
     ok = coq_check_props(ctx, allowed_axioms)
     if not ok:
         report_violation(
